@@ -153,6 +153,19 @@ access(all) contract Ext {
     access(all) fun mkG2(): @G2 { return <- create G2() }
     init() {}
 }`},
+	{"Slot", `
+import Far from 0x9
+access(all) contract Slot {
+    access(all) var slot: @Far.T?
+    access(all) var shelf: @{String: Far.T}
+    access(all) fun fill(_ r: @Far.T) { self.slot <-! r }
+    access(all) fun take(): @Far.T? { let r <- self.slot <- nil; return <- r }
+    access(all) fun swapIn(_ r: @Far.T): @Far.T? { let old <- self.slot <- r; return <- old }
+    access(all) fun put(_ k: String, _ r: @Far.T) { self.shelf[k] <-! r }
+    access(all) fun pull(_ k: String): @Far.T? { return <- self.shelf.remove(key: k) }
+    access(all) view fun occupied(): Bool { return self.slot != nil }
+    init() { self.slot <- nil; self.shelf <- {} }
+}`},
 	{"Multi", `
 access(all) contract Multi {
     access(all) resource R {
@@ -622,6 +635,30 @@ var scenarios = []scenario{
         destroy again`), Fails: "DuplicateAttachmentError"},
 			{Kind: "script", Src: scnScript("import Multi from 0x9\n", "Int", `    let a = getAuthAccount<auth(Storage) &Account>(0x9)
     return Multi.sum(a.storage.borrow<&Multi.R>(from: /storage/scnMulti)!)`), Expect: []string{}},
+		}
+	}},
+	{"contract-resource-slot", func(r *Rng) []scnStep {
+		id := r.Intn(1000)
+		imp := impW + "import Far from 0x9\nimport Slot from 0x9\n"
+		return []scnStep{
+			{Kind: "tx", Src: scnTx(imp, fmt.Sprintf(`        if let old <- Slot.take() { destroy old }
+        if let old2 <- Slot.pull("k") { destroy old2 }
+        Slot.fill(<- Far.mk(%d))
+        Slot.put("k", <- Far.mk(%d))
+        log(Slot.occupied())`, id, id+1)), Expect: []string{"true"}},
+			// force-assignment onto an occupied resource field / dictionary entry of a contract must abort: nothing may be lost
+			{Kind: "tx", Src: scnTx(imp, fmt.Sprintf(`        Slot.fill(<- Far.mk(%d))`, id+2)), Fails: "ResourceLossError"},
+			{Kind: "tx", Src: scnTx(imp, fmt.Sprintf(`        Slot.put("k", <- Far.mk(%d))`, id+3)), Fails: "ResourceLossError"},
+			{Kind: "tx", Src: scnTx(imp, fmt.Sprintf(`        let old <- Slot.swapIn(<- Far.mk(%d))
+        log(old?.id)
+        destroy old
+        let cur <- Slot.take()
+        log(cur?.id)
+        destroy cur
+        log(Slot.occupied())
+        let k <- Slot.pull("k")
+        log(k?.id)
+        destroy k`, id+4)), Expect: []string{fmt.Sprint(id), fmt.Sprint(id + 4), "false", fmt.Sprint(id + 1)}},
 		}
 	}},
 	{"resource-juggling", func(r *Rng) []scnStep {
